@@ -296,6 +296,19 @@ def observe(w, with_ops=True):
         for other in classes:
             if other is cls:
                 continue
+            # text plus an explicit unit: the type that is called decides
+            if other is not Q.Quantity:
+                for u2s in tm.units[:2]:
+                    try:
+                        q = other(f"1 {sym}", w.units[u2s])
+                        viol.append(('C15:instance-type:foreign-class:'
+                                     'text-and-unit',
+                                     f"{other.__name__}('1 {sym}', {u2s}) "
+                                     f"gives {q!r}; both units belong to "
+                                     f"{um.tname}"))
+                        break
+                    except Exception:
+                        pass
             for f in (lambda: other(1, u), lambda: other(f"1 {sym}")):
                 try:
                     q = f()
